@@ -95,7 +95,7 @@ def run(world, ext, data, output, backup, script, body_exc_at=None, body_exc=Non
         fs.counting = False
         fs.fail_at = None
     after = world.snapshot()
-    return {"result": result, "before": before, "after": after, "calls": list(fs.calls), "entry": state.get("entry"), "raised": raised, "injected": injected, "data": data, "ext": ext, "backup": backup, "output": output}
+    return {"result": result, "before": before, "after": after, "calls": list(fs.calls), "entry": state.get("entry"), "raised": raised, "injected": injected, "data": data, "ext": ext, "backup": backup, "output": output, "native": world.which == "nat"}
 
 
 def fails_body(r, exc_name):
@@ -142,7 +142,7 @@ def backup_clause(r):
         if closed_ok:
             enc = MU.expected_encoding(r["data"], MU.ENCODINGS)
             try:
-                got = MU.canon_obs(MU.parse_as(r["ext"], r["after"][bname], enc, True))
+                got = MU.canon_obs(MU.parse_as(r["ext"], r["after"][bname], enc, r["native"]))
                 if got != r["entry"]:
                     fails.append({"clause": "a backup that has been written does not parse to the original simfile", "expected": r["entry"], "observed": got})
             except core.WatchdogTimeout:
@@ -171,7 +171,7 @@ def fails_io(r, k):
         if bname in r["after"]:
             try:
                 enc = MU.expected_encoding(r["data"], MU.ENCODINGS)
-                ok = MU.canon_obs(MU.parse_as(r["ext"], r["after"][bname], enc, True)) == r["entry"]
+                ok = MU.canon_obs(MU.parse_as(r["ext"], r["after"][bname], enc, r["native"])) == r["entry"]
             except Exception:
                 ok = False
         if not ok:
@@ -264,8 +264,8 @@ def fails_after_failure(w, ext, enc, with_chart):
         fails.append({"clause": "a fault-free mutate right after a failed one raised", "expected": "saved", "observed": repr(r["result"][1])})
         return fails
     try:
-        bak = MU.canon_obs(MU.parse_as(ext, r["after"]["bak" + ext], enc, True))
-        out = MU.canon_obs(MU.parse_as(ext, r["after"]["out" + ext], enc, True))
+        bak = MU.canon_obs(MU.parse_as(ext, r["after"]["bak" + ext], enc, r["native"]))
+        out = MU.canon_obs(MU.parse_as(ext, r["after"]["out" + ext], enc, r["native"]))
         if bak != r["entry"]:
             fails.append({"clause": "after a failed save, the next mutate's backup does not parse to its own original simfile", "expected": r["entry"], "observed": bak})
         want_exit = copy.deepcopy(r["entry"])
@@ -282,7 +282,7 @@ def fails_after_failure(w, ext, enc, with_chart):
 def do_case(case):
     w = world(case["fs"])
     ext, enc = case["ext"], case["enc"]
-    data = MU.file_bytes(ext, content_for(enc), case["with_chart"], key_only=case.get("key_only", False), unique=True)
+    data = MU.file_bytes(ext, content_for(enc), case["with_chart"], key_only=case.get("key_only", False), unique=True, variant=case.get("variant"))
     script = case.get("script", [])
     kind = case["kind"]
     if kind == "body":
@@ -319,10 +319,12 @@ def explore_shard(acc, shard):
     try:
         scripts = [()] + [(e,) for e in MU.EDITS] + [tuple(s) for n in range(2, maxlen + 1) for s in itertools.product(MU.EDITS[:4], repeat=n)]
         case = None
-        for with_chart in (False, True):
+        for with_chart, variant in ((False, None), (True, None), (True, "crlf")):
+            if variant == "crlf" and fsname != "mem":
+                continue
             for output in (False, True):
                 for backup in (False, True):
-                    base = {"fs": fsname, "ext": ext, "enc": enc, "with_chart": with_chart, "key_only": with_chart, "output": output, "backup": backup}
+                    base = {"fs": fsname, "ext": ext, "enc": enc, "with_chart": with_chart, "key_only": with_chart, "output": output, "backup": backup, "variant": variant}
                     # body faults
                     for script in scripts:
                         for at in range(len(script) + 1):
